@@ -1419,7 +1419,7 @@ pub fn run_worker(args: &[String]) -> i32 {
     let seed: u64 = args.first().and_then(|s| s.parse().ok()).unwrap_or(1);
     let idx: u64 = args.get(1).and_then(|s| s.parse().ok()).unwrap_or(0);
     let calls: usize = args.get(2).and_then(|s| s.parse().ok()).unwrap_or(30);
-    let scratch = args.get(3).cloned().unwrap_or_else(|| "/tmp/h_c16/scratch".into());
+    let scratch = args.get(3).cloned().unwrap_or_else(|| "/verif/.scratch/c16".into());
     let mode = args.get(4).cloned().unwrap_or_else(|| "all".into());
     let mut rng = Rng::new(seed ^ 0xC16E ^ (idx.wrapping_mul(0x1234_5678_9ABC)));
     let mut out = new_out();
@@ -1466,7 +1466,7 @@ pub fn run_worker(args: &[String]) -> i32 {
 /// the cache refutation, deliberately in one process: binary A then binary B whose c16first/c16second are swapped
 pub fn run_cache(args: &[String]) -> i32 {
     let seed: u64 = args.first().and_then(|s| s.parse().ok()).unwrap_or(1);
-    let scratch = args.get(1).cloned().unwrap_or_else(|| "/tmp/h_c16/scratch".into());
+    let scratch = args.get(1).cloned().unwrap_or_else(|| "/verif/.scratch/c16".into());
     let mut out = new_out();
     let mut details = vec![];
     let mut stale = false;
@@ -1534,7 +1534,7 @@ pub fn run_e2e(args: &[String]) -> i32 {
     let seed: u64 = args.first().and_then(|s| s.parse().ok()).unwrap_or(1);
     let count: usize = args.get(1).and_then(|s| s.parse().ok()).unwrap_or(120);
     let out_dir = args.get(2).cloned().unwrap_or_else(|| "../coq/cases".into());
-    let scratch = args.get(3).cloned().unwrap_or_else(|| "/tmp/h_c16/scratch".into());
+    let scratch = args.get(3).cloned().unwrap_or_else(|| "/verif/.scratch/c16".into());
     let modes = args.get(4).cloned().unwrap_or_else(|| "all,redzone,align,fp,signal,cache".into());
     let exe = std::env::current_exe().unwrap();
     let per_variant = 30usize;
